@@ -74,8 +74,8 @@ class P(Property):
             'life cycles each (resolver dropped, FIN / RESET before HEADERS, QPACK-invalid, malformed, wrong first frame, '
             'finish+drop, drop, RESET after HEADERS, split with the halves dropped in either order, one half kept, stream kept, '
             'resolver kept) x every arrival/acceptance order of the stream ids for <= 2 requests (thorough <= 3; beyond: stream-id order + one seeded other order) x interleavings of the life cycles x the peer GOAWAY at every position x '
-            'eager / lazy polling, plus seeded random histories (arrivals after GOAWAY, operations before hand-out, several '
-            'GOAWAYs). Every implementation trace is judged by the extracted Coq drain monitor. non-trivial = distinct cases in '
+            'eager / lazy polling, plus the structured family None -> lower-id arrival handed out -> arrival beyond the final GOAWAY refused while it is alive, plus seeded random histories (arrivals after GOAWAY, operations before hand-out, several '
+            'GOAWAYs). Every 5th (thorough: 3rd) case is re-run in a seeded environment variant: default config (grease on), 3 uni-stream credits, other peer uni streams first / type byte pending, chunked control preamble, control stream late. Errors are observed as code + variant + transport close() code. Every implementation trace is judged by the extracted Coq drain monitor. non-trivial = distinct cases in '
             'which at least one request was handed out')
 
     def __init__(self):
@@ -123,6 +123,18 @@ class P(Property):
                                 toks.append('G0')
                             toks += ['P', 'P']
                             out.append('drain ' + ','.join(toks))
+        # structured family: accept() has answered None (its final GOAWAY is on the wire), then a LOWER-id request
+        # arrives and is handed out, then a request beyond the final GOAWAY arrives and is refused while the first is alive
+        live = [e for e in range(len(ENDINGS))]
+        for e1 in live:
+            for e2 in live:
+                a1 = ['x4:%s' % a for a in ENDINGS[e1]]
+                a2 = ['x0:%s' % a for a in ENDINGS[e2]]
+                for gfirst in (True, False):
+                    head = (['G0', 'A4', 'P'] if gfirst else ['A4', 'P', 'G0']) + a1 + ['P']
+                    for late in (['A0', 'A12', 'P'], ['A0', 'P', 'A12', 'P'], ['A12', 'A0', 'P']):
+                        toks = head + late + a2 + ['P', 'A16', 'P']
+                        out.append('drain ' + ','.join(toks))
         # seeded random histories
         acts = ['dropres', 'ok', 'fin', 'rst', 'badqpack', 'malformed', 'unexpected', 'finish', 'rstafter', 'drop', 'split', 'dropsend', 'droprecv']
         wts = [3, 6, 2, 2, 1, 2, 1, 3, 2, 5, 3, 4, 4]
@@ -147,7 +159,15 @@ class P(Property):
                     toks.append('P')
             toks.append('P')
             out.append('drain ' + ','.join(toks))
-        return out
+        # environment variants (the model does not depend on them): default configuration (grease on), only 3 uni
+        # stream credits, other peer uni streams before the control stream, chunked preamble, late control stream
+        envs = ['.g', '.g3', '.3', '.u', '.q', '.t', '.l', '.gu3', '.gqt3', '.gul3', '.qtl']
+        step = 5 if tier == 'quick' else 3
+        extra = []
+        for i in range(0, len(out), step):
+            fam, rest = out[i].split(' ', 1)
+            extra.append(fam + rng.choice(envs) + ' ' + rest)
+        return out + extra
 
     def spec_ok(self, case, out, spec):
         if spec is None:
